@@ -690,6 +690,15 @@ func (m *Mux) newUnderlay(ctx context.Context) (Underlay, error) {
 	}
 
 	m.mu.Lock()
+	select {
+	case <-m.done:
+		// Close() ran while the underlay was being created. It can't see
+		// this underlay, so it must not be used.
+		m.mu.Unlock()
+		underlay.Close()
+		return nil, io.ErrClosedPipe
+	default:
+	}
 	m.underlays = append(m.underlays, underlay)
 	m.mu.Unlock()
 	UnderlayActiveOpens.Add(1)
